@@ -316,6 +316,16 @@ def solve_direct(ctx, mon, V, inst, stratum, cyclic):
         if again:
             sv.solve()
             ctx.path("solve-called-twice")
+        elif dg[0] in "45" and hasattr(sv, "setDesiredPositions"):
+            # incremental use: new desired positions for the same variables, solve() again on the same Solver
+            import random as _r
+
+            r2 = _r.Random(dg)
+            span = max(1.0, max(inst.d) - min(inst.d))
+            sv.setDesiredPositions([r2.choice([x, x + r2.uniform(-span, span), r2.uniform(min(inst.d) - 5, max(inst.d) + 5)]) for x in inst.d])
+            sv.solve()
+            again = True
+            ctx.path("resolved-with-new-desired-positions")
     except BudgetExceeded:
         pass
     except RecursionError:
